@@ -6,6 +6,8 @@
 #include <memory>
 #include <functional>
 #include <type_traits>
+#include <limits>
+#include <utility>
 
 
 
@@ -114,8 +116,28 @@ namespace sqf
                 return std::static_pointer_cast<T>(m_data);
             }
 
+        private:
+            template<class TData, typename = void>
+            struct holds_float : std::false_type {};
+            template<class TData>
+            struct holds_float<TData, std::void_t<decltype(std::declval<TData&>().value())>> : std::is_same<decltype(std::declval<TData&>().value()), float> {};
+        public:
             template<class TData, typename TValue>
-            TValue data() const { return (TValue)(*data<TData>()); }
+            TValue data() const
+            {
+                if constexpr (std::is_integral<TValue>::value && !std::is_same<TValue, bool>::value && holds_float<TData>::value)
+                { // script number to integer: a plain cast is undefined for NaN and for numbers outside of the integer's range
+                    float f = data<TData>()->value();
+                    if (f != f) { return 0; }
+                    if (f >= static_cast<float>(std::numeric_limits<TValue>::max())) { return std::numeric_limits<TValue>::max(); }
+                    if (f <= static_cast<float>(std::numeric_limits<TValue>::min())) { return std::numeric_limits<TValue>::min(); }
+                    return static_cast<TValue>(f);
+                }
+                else
+                {
+                    return (TValue)(*data<TData>());
+                }
+            }
 
             std::size_t hash() const
             {
